@@ -13,7 +13,7 @@ func init() {
 		jsonSinkRule("C03.escape", "an example (exampleBuilder)", func(pkgRel, fn string) bool {
 			return pkgRel == "notations/jschema" && strings.Contains(fn, "exampleBuilder")
 		}, 4),
-		c03literal, c03order)
+		c03literal, c03order, c03subset, c03unquote)
 }
 
 func c03literal(c *core.Ctx) {
@@ -99,4 +99,140 @@ func c03order(c *core.Ctx) {
 		})
 		c.Check(bad == "" && sliceRange, R, fn, c.P.Pos(d.Decl.Pos()), fn+" iterates an ordered slice", "members are no longer emitted from the ordered children slice: "+bad)
 	}
+}
+
+// c03unquote: the JSON string decoder's tables.
+func c03unquote(c *core.Ctx) {
+	const R = "C03.unquote"
+	c.Rule(R, "the per-byte tables of the JSON string decoder bytes.unquoteBytes/getu4, evaluated for all 256 byte values: (hex) getu4 maps '0'-'9' to 0-9, 'a'-'f' and 'A'-'F' to 10-15 and rejects every other byte; (esc) the escape switch maps \\\" \\\\ \\/ to themselves and b f n r t to the control characters 8 12 10 13 9, hands `u` to getu4 and rejects everything else (the historical \\' of encoding/json is tolerated). A wrong cell decodes keys/values to other text than written (GetAST, example keys)")
+	c.Floor(R, 256)
+	d := c.P.FindDecl("bytes.getu4")
+	if d == nil {
+		c.Unresolved(R, "bytes.getu4")
+		return
+	}
+	var loop *ast.RangeStmt
+	ast.Inspect(d.Decl.Body, func(n ast.Node) bool {
+		if rs, ok := n.(*ast.RangeStmt); ok && loop == nil {
+			loop = rs
+		}
+		return true
+	})
+	if loop == nil || loop.Value == nil {
+		c.Bad(R, "getu4:loop", c.P.Pos(d.Decl.Pos()), "getu4 digit loop", "undecided: no range loop over the four hex digits")
+		return
+	}
+	ev := newByteBodyEval(c, d.Pkg, core.ExprStr(loop.Value))
+	bad := 0
+	for b := 0; b < 256; b++ {
+		r := ev.run(loop.Body.List, int64(b))
+		want := int64(-1)
+		switch {
+		case b >= '0' && b <= '9':
+			want = int64(b - '0')
+		case b >= 'a' && b <= 'f':
+			want = int64(b-'a') + 10
+		case b >= 'A' && b <= 'F':
+			want = int64(b-'A') + 10
+		}
+		key := core.F("getu4:byte%03d", b)
+		what := core.F("getu4 digit %q", rune(b))
+		switch {
+		case r.unknown != "":
+			c.Bad(R, key, c.P.Pos(loop.Pos()), what, "undecided: "+r.unknown)
+			bad++
+		case want < 0 && r.ret == "":
+			c.Bad(R, key, c.P.Pos(loop.Pos()), what, core.F("byte is accepted as a hex digit with value %d but is not one", r.val))
+			bad++
+		case want >= 0 && (r.ret != "" || r.val != want):
+			c.Bad(R, key, c.P.Pos(loop.Pos()), what, core.F("hex digit %q decodes to %d (%s), expected %d: \\u escapes with this digit decode to another character", rune(b), r.val, r.ret, want))
+			bad++
+		default:
+			c.OK(R, key, c.P.Pos(loop.Pos()), what)
+		}
+	}
+	// escape switch of unquoteBytes
+	u := c.P.FindDecl("bytes.unquoteBytes")
+	if u == nil {
+		c.Unresolved(R, "bytes.unquoteBytes")
+		return
+	}
+	var esc *ast.SwitchStmt
+	ast.Inspect(u.Decl.Body, func(n ast.Node) bool {
+		sw, ok := n.(*ast.SwitchStmt)
+		if !ok || sw.Tag == nil {
+			return true
+		}
+		for _, cl := range sw.Body.List {
+			for _, e := range cl.(*ast.CaseClause).List {
+				if v := core.ConstOf(u.Pkg, e); v != nil && v.ExactString() == "117" { // 'u'
+					esc = sw
+				}
+			}
+		}
+		return true
+	})
+	if esc == nil {
+		c.Bad(R, "unquoteBytes:escape-switch", c.P.Pos(u.Decl.Pos()), "escape switch of unquoteBytes", "undecided: no switch with a case 'u'")
+		return
+	}
+	tag := core.ExprStr(esc.Tag)
+	table := map[int64]string{} // escape char -> "id" | "const N" | "u"
+	def := ""
+	for _, cl := range esc.Body.List {
+		cc := cl.(*ast.CaseClause)
+		action := "?"
+		ast.Inspect(cc, func(n ast.Node) bool {
+			switch x := n.(type) {
+			case *ast.AssignStmt:
+				if len(x.Lhs) == 1 && len(x.Rhs) == 1 {
+					if _, isIdx := x.Lhs[0].(*ast.IndexExpr); isIdx && action == "?" {
+						if core.ExprStr(x.Rhs[0]) == tag {
+							action = "id"
+						} else if v := core.ConstOf(u.Pkg, x.Rhs[0]); v != nil {
+							action = "const " + v.ExactString()
+						}
+					}
+				}
+			case *ast.CallExpr:
+				if core.ExprStr(x.Fun) == "getu4" && action == "?" {
+					action = "u"
+				}
+			case *ast.ReturnStmt:
+				if action == "?" {
+					action = "reject"
+				}
+			}
+			return true
+		})
+		if cc.List == nil {
+			def = action
+			continue
+		}
+		for _, e := range cc.List {
+			if v := core.ConstOf(u.Pkg, e); v != nil {
+				n, _ := constantInt64(v)
+				table[n] = action
+			}
+		}
+	}
+	want := map[int64]string{'"': "id", '\\': "id", '/': "id", 'b': "const 8", 'f': "const 12", 'n': "const 10", 'r': "const 13", 't': "const 9", 'u': "u"}
+	for b := int64(0); b < 256; b++ {
+		got, ok := table[b]
+		if !ok {
+			got = def
+		}
+		w, isWant := want[b]
+		if !isWant {
+			w = "reject"
+		}
+		key := core.F("unquoteBytes:esc%03d", b)
+		what := core.F("escape \\%q -> %s", rune(b), got)
+		if got == w || (b == '\'' && got == "id") {
+			c.OK(R, key, c.P.Pos(esc.Pos()), what)
+		} else {
+			c.Bad(R, key, c.P.Pos(esc.Pos()), what, core.F("expected %s: the escape decodes to the wrong character (or an invalid escape is accepted)", w))
+		}
+	}
+	c.Extra["exhaustive"] = true
 }
